@@ -19,7 +19,7 @@ type genCtx struct {
 
 func newGen() *genCtx {
 	if vTier() == 1 {
-		return &genCtx{budget: 4, maxDepth: 3, maxProps: 3, maxStr: 2}
+		return &genCtx{budget: 4, maxDepth: 3, maxProps: 2, maxStr: 1}
 	}
 	return &genCtx{budget: 3, maxDepth: 2, maxProps: 2, maxStr: 1}
 }
@@ -142,7 +142,7 @@ func HarnessC05_Tree() {
 
 func bytesBound() int {
 	if vTier() == 1 {
-		return 13
+		return 12
 	}
 	return 10
 }
